@@ -12,7 +12,6 @@ Clauses(c) ==
       n == IF ok THEN Len(ts) ELSE Len(ts) - 1
       toks == [j \in 1..n |-> [t |-> ts[j].t, v |-> ts[j].v]]
       exp == IF ok THEN Outcome(toks) ELSE [v |-> "lex", bad |-> 0, tree |-> NoWrap, static |-> FALSE]
-      hasBranch == \E j \in 1..n : ts[j].t \in {"branch", "BININT"}
   IN F("token_kinds", (c.lex.cls = "ok") # ok \/ c.lex.kinds # [j \in 1..n |-> ts[j].t])
      \cup F("token_offsets", c.lex.pos # [j \in 1..n |-> ts[j].p - 1])
      \cup F("lex_error_pos", ~ok /\ c.lex.cls # "ok" /\ c.lex.errpos # ts[Len(ts)].p - 1)
@@ -22,9 +21,9 @@ Clauses(c) ==
               LET pre == PS(toks) IN
               ~(IF pre.verdict = "ok" THEN ~c.parse.eof /\ c.parse.off = ts[Len(ts)].p - 1
                 ELSE ~c.parse.eof /\ c.parse.off \in ({ ts[j].p - 1 : j \in pre.bad..n } \cup {ts[Len(ts)].p - 1})))
-     \cup F("accept_iff", ok /\ ~hasBranch /\ ((c.parse.cls = "ok") # (exp.v = "ok")))
+     \cup F("accept_iff", ok /\ ((c.parse.cls = "ok") # (exp.v = "ok")))
      \cup F("error_type", c.parse.cls \notin {"ok", "parse_error"})
-     \cup F("position", ok /\ ~hasBranch /\ exp.v = "syntax" /\ ~exp.static /\ c.parse.cls = "parse_error" /\
+     \cup F("position", ok /\ exp.v = "syntax" /\ ~exp.static /\ c.parse.cls = "parse_error" /\
               ~(IF exp.bad > n THEN c.parse.eof
                 ELSE c.parse.eof \/ c.parse.off \in { ts[j].p - 1 : j \in exp.bad..n }))
 
